@@ -112,7 +112,7 @@ theorem carryInOne_recGrow (c : Cfg) (tob : Option Tob) (f : Bool) (s : St) (p :
     | none => exact RecGrow.refl s
     | some r =>
       simp only
-      have hpre : r.digests <+: (match s.digestDiff c r (tob.getD c.tob) with
+      have hpre : r.digests <+: (match s.carryDiff c r (tob.getD c.tob) with
           | .different a => r.digests ++ [a]
           | _ => r.digests) := by split <;> simp
       have key : ∀ (s1 : St) (r' : Rec), r.digests <+: r'.digests → RecGrow s s1 → s1.recs e = some r →
